@@ -287,6 +287,7 @@ func checkC03(c *Ctx, r *Report) {
 	escapeFlagSet(c, r, "C03.R2.escape-flag-set")
 	pointerLimitAdmitsOwnOutput(c, r, "C03.R1.pointer-limit")
 	lexerKeepsEscaped(c, r, "C03.R3.lexer-keeps-escaped")
+	round12(c, r, "C03")
 }
 
 func c03R2(c *Ctx, r *Report) {
